@@ -344,6 +344,10 @@ func typeAssert(n *node, withResult, withOk bool) {
 		n.exec = func(f *frame) bltn {
 			valf := value(f)
 			v, ok := valf.Interface().(valueInterface)
+			if ok && v.node == nil {
+				// A nil interface value holds no dynamic type.
+				ok = false
+			}
 			if setStatus {
 				defer func() {
 					value1(f).SetBool(ok)
